@@ -791,20 +791,35 @@ impl<'r> Lowerer<'r> {
         let ty = self.type_info.type_of(id);
         let ty = self.type_info.convert(&ty);
 
+        // Each field is stored in a variable of its own before the next one
+        // is evaluated, and the record is only put together once all of them
+        // are there (like the arguments of an enum constructor). A later
+        // field can leave the function early: then the fields evaluated so
+        // far have to be dropped, and there must not be a half-built record
+        // among the live variables.
+        let fields: Vec<_> = record
+            .fields
+            .iter()
+            .map(|(s, expr)| {
+                let op = self.expr(expr);
+                let field_ty = self.type_info.type_of(expr);
+                let field_ty = self.type_info.convert(&field_ty);
+                let var = self.assign_to_var(op, field_ty);
+                (**s, var, field_ty)
+            })
+            .collect();
+
         let to = self.tmp(ty);
 
-        for (s, expr) in &record.fields {
-            let op = self.expr(expr);
-            let field_ty = self.type_info.type_of(expr);
-            let field_ty = self.type_info.convert(&field_ty);
+        for (s, var, field_ty) in fields {
             self.do_assign(
                 Place {
                     var: to.clone(),
                     root_ty: ty,
-                    projection: vec![Projection::Field(**s)],
+                    projection: vec![Projection::Field(s)],
                 },
                 field_ty,
-                op,
+                Value::Move(var),
             );
         }
 
